@@ -68,3 +68,12 @@ package ecdsa
 //@     ghost compared = true
 //@   at return:
 //@     assert [requested-digest] result.1 == nil ==> compared
+
+//@ // sender side: a message leaves exactly as the library routed it: the library's bytes, the library's broadcast flag, and for a
+//@ // point-to-point message one send per addressee, to the party whose key the library named
+//@ func (*party).sendMessages
+//@   props C19
+//@   requires p.logger != nil && p.sendMsg != nil
+//@   on-call p.sendMsg(b, bc, dst):
+//@     assert [as-routed] same(b, msgBytes) && bc == routing.IsBroadcast && (bc ==> dst == 0) &&
+//@                        (!bc && 0 <= beint(to.Key) && beint(to.Key) <= 65535 ==> dst == beint(to.Key))
